@@ -19,8 +19,11 @@ def write(pid, tier, seed, level, coverage, wall_s, violations=0, assumptions=()
     }
     if extra:
         ev.update(extra)
-    os.makedirs(os.path.join(VERIF, 'evidence'), exist_ok=True)
-    path = os.path.join(VERIF, 'evidence', '%s.json' % pid)
+    # (tools that run the checks against a modified copy of the source - seeded changes, the false-alarm battery - divert the
+    #  evidence with VERIF_EVIDENCE_DIR so that /verif/evidence always describes a run against /repo itself)
+    edir = os.environ.get('VERIF_EVIDENCE_DIR') or os.path.join(VERIF, 'evidence')
+    os.makedirs(edir, exist_ok=True)
+    path = os.path.join(edir, '%s.json' % pid)
     try:
         import jsonschema
         if os.path.exists(SCHEMA):
